@@ -10,9 +10,13 @@ Scope notes
 * ordering / `combine` theorems: all 2^12 theories, all logics (any name), no table involved;
 * table theorems (`table_*`, `*_subset_logics`): the regenerated tables, by `decide +kernel`;
 * selection theorems: arbitrary lists of supported logics and arbitrary targets;
-* detection (`detect_covers`): phase 2, see the bottom of the file.
+* detection (`oracle_wf`, `detect_covers_partial`, `detect_logic_covers_partial`): about the hand-written model
+  `Impl/TheoryOracle.lean` of the (repaired) `TheoryOracle` and of `oracles.get_logic`, compared with the real code on
+  every generated formula by the harness.
 -/
 import PySMT.Proofs.C13Table
+import PySMT.Proofs.C13Detect
+import PySMT.Core.TypeOf
 namespace PySMT.Logics.C13
 
 local infix:50 " ≤ₜ " => fun a b => Theory.le a b = true
@@ -158,6 +162,43 @@ theorem most_generic_spec (ls : List Logic) (r : Logic) (h : most_generic_logic 
     (r ∈ ls ∧ ∀ x ∈ ls, x ≤ₗ r) ∧ ∀ y, (y ∈ ls ∧ ∀ x ∈ ls, x ≤ₗ y) → y = r :=
   most_generic_logic_spec ls r h
 
+/-! ## Detection -/
+
+open PySMT.TheoryOracle PySMT.Features in
+/-- every theory the oracle computes is well formed -- for *any* term, well-sorted or not (hence `combine_ub`
+applies to everything detection produces, and the assertions in `walk_plus` cannot fire) -/
+theorem oracle_wf (t : Term) : WFTheory (theoryOf t) := theoryOf_wf t
+
+open PySMT.TheoryOracle PySMT.Features in
+/-- The detected theory enables every *intrinsic* feature of the formula: the sorts of all symbols, constants,
+bound variables, function results and array-value indices; integer-valued string and bit-vector operators,
+`to_real`, strings produced from integers; constant arrays; uninterpreted applications; non-linear products,
+quotients by non-constants.
+
+`_partial`: (a) the operator-family features that a well-sorted operand already accounts for (`operandImplied`:
+bit-vector/string/array operators over bit-vector/string/array operands, parameter sorts of an applied function)
+are not derived here -- that needs the typing judgement; the harness checks the *full* `features` on every
+generated formula instead; (b) `inFragment` excludes `pow` and function symbols used as terms or bound by a
+quantifier. -/
+theorem detect_covers_partial (t : Term) (hf : inFragment t = true) :
+    (theoryOf t).covers (featuresIntrinsic t) = true := by
+  simp only [inFragment, Bool.and_eq_true] at hf
+  exact (covers_iff _ _).2 (theoryOf_covers t hf.1 hf.2)
+
+/-- the statement with the full feature set (not proved; see `detect_covers_partial`) -/
+def detect_covers_full_statement : Prop :=
+  ∀ t : Term, t.wt = true → Features.inFragment t = true →
+    (TheoryOracle.theoryOf t).covers (Features.features t) = true
+
+open PySMT.TheoryOracle PySMT.Features in
+/-- the logic `get_logic` labels the formula with is a pySMT logic whose theory enables every intrinsic feature
+of the formula, and it is not quantifier-free when the formula has a quantifier (`_partial` as above) -/
+theorem detect_logic_covers_partial (t : Term) (L : Logic) (hf : inFragment t = true)
+    (h : getLogic t = .ok L) :
+    L ∈ PYSMT_LOGICS ∧ L.theory.covers (featuresIntrinsic t) = true ∧
+    (hasQuant t = true → L.quantifier_free = false) :=
+  ⟨(getLogic_spec t L h).1, (covers_iff _ _).2 (getLogic_covers t L hf h).1, (getLogic_covers t L hf h).2⟩
+
 /-! ## Non-vacuity -/
 
 -- hypotheses of `combine_ub` / `combine_wf` are satisfiable, and the statement is not trivial
@@ -180,5 +221,29 @@ example : get_closer_smtlib_logic QF_BOOL = .ok QF_UF ∧ get_closer_smtlib_logi
 example : NoTwins PYSMT_LOGICS ∧ NoTwins SMTLIB2_LOGICS := ⟨pysmt_no_twins, smtlib2_no_twins⟩
 example : ∃ k ∈ PYSMT_LOGICS, Logic.le ⟨"Detected Logic", true, QF_UFIDL.theory⟩ k = true :=
   ⟨QF_UFIDL, by decide +kernel, by decide⟩
+
+-- detection: the three repaired shapes are in the fragment and get their feature
+section
+open PySMT.TheoryOracle PySMT.Features
+private def exIntToStr : Term :=
+  Term.mkEq (.node .intToStr [Term.var "x" .int] .none) (.node .intToStr [Term.var "y" .int] .none)
+private def exBound : Term := Term.mkForall [Sym.var "v" (.bv 8)] (Term.var "b" .bool)
+private def exDiv : Term :=
+  Term.mkEq (.node .div [Term.real 3, Term.var "r" .real] .none) (Term.real 1)
+/-- unfolding set for evaluating the (well-founded-recursive) term functions on concrete terms -/
+macro "eval_terms" : tactic => `(tactic|
+  simp [exIntToStr, exBound, exDiv, inFragment, firstOrder, shapeOk, nodeFirstOrder, nodeShape, featuresIntrinsic,
+    intrinsic, Features.join, Features.joinAll, Features.none, isIntValuedOp, ofSym, ofSort, hasQuant, Term.isQF,
+    Term.subterms, Op.isQuantifier, Term.op, theoryOf, rule, symTheory, theoryFromType, combineList, foldCombine,
+    hasFreeVars, nonConstant, Term.fv, isZero, Term.mkEq, Term.mkForall, Term.var, Term.sym, Term.real, Sym.var,
+    Sym.isFn, Theory.combine, Theory.combine.integer_difference, Theory.combine.real_difference, Theory.default,
+    Theory.copy, Theory.set_strings, Theory.set_linear])
+example : inFragment exIntToStr = true ∧ (featuresIntrinsic exIntToStr).strings = true ∧
+    (theoryOf exIntToStr).strings = true := by eval_terms
+example : inFragment exBound = true ∧ (featuresIntrinsic exBound).bit_vectors = true ∧
+    (theoryOf exBound).bit_vectors = true ∧ hasQuant exBound = true := by eval_terms
+example : inFragment exDiv = true ∧ (featuresIntrinsic exDiv).linear = false ∧
+    (theoryOf exDiv).linear = false := by eval_terms
+end
 
 end PySMT.Logics.C13
